@@ -251,6 +251,13 @@ def static_part(ctx):
     return prog, full, rejected, res
 
 
+# input-representation layer of common.py: off.  Every clause of C05 compares the results of several calls with EQUAL arguments
+# (same seed same result, seed kinds, other process) byte for byte, dtype included; a representation chosen per call would make
+# equal calls unequal.
+VARIANTS_OFF = True
+VARIANTS_OFF_WHY = 'C05 compares calls with equal arguments byte for byte (dtype included), also across processes'
+
+
 def run(ctx):
     import bct
     prog, full, rejected, res = static_part(ctx)
